@@ -144,3 +144,17 @@ def eval_term(cid, name, imports, term, timeout=300, extra_defs=""):
         f.write("Eval vm_compute in (%s).\n" % term)
     rc, out = _run_one(path, timeout)
     return out[-4000:]
+
+
+def coqchk(cid, timeout=1500):
+    """Independent re-check of the compiled property file and everything it depends on (thorough tier)."""
+    t0 = time.time()
+    p = subprocess.run(["timeout", str(timeout), "coqchk", "-silent", "-o"] + QFLAGS + ["DeepProps.%s" % cid], cwd=COQ,
+                       stdout=subprocess.PIPE, stderr=subprocess.STDOUT, text=True)
+    out = p.stdout
+    m = re.search(r"\* Axioms:(.*?)\n\s*\n\* Constants", out, re.S)
+    axioms = (m.group(1).strip() if m else "?")
+    clean = p.returncode == 0 and axioms == "<none>" and all(("%s: <none>" % k) in out for k in (
+        "type-in-type", "unsafe (co)fixpoints", "positivity is assumed"))
+    return dict(ok=clean, returncode=p.returncode, axioms=axioms, wall_s=round(time.time() - t0, 1),
+                cmd="coqchk -silent -o -Q theories Deep -Q gen DeepGen -Q props DeepProps DeepProps.%s" % cid, tail=out[-600:])
